@@ -1,4 +1,4 @@
-import ProductMD.Proofs.Nvra
+import ProductMD.Proofs.NvraExact
 /-!
 # C13 — RPM `name-[epoch:]version-release.arch` strings are parsed back to their parts
 
@@ -112,6 +112,53 @@ theorem C13_parse_epoch_limit (dir name : Str) (e : Nat) (ver rel arch : Str) (r
   | nil => exact absurd hs (natStr_ne_nil e)
   | cons d ds => rw [hs] at hv; simp [Spec.nvraGroups, List.lookup, hv, Except.map]
 
+/-! ### the parser on every string -/
+theorem groups_exact (q : Str × Option Str × Str × Str × Str) (d : Option Str) :
+    let caps : Caps := PM.NvraExact.capsOf q ++ PM.NvraExact.dcap d
+    namedGroup Spec.nvraGroups caps "name" = some q.1 ∧ namedGroup Spec.nvraGroups caps "version" = some q.2.2.1
+    ∧ namedGroup Spec.nvraGroups caps "release" = some q.2.2.2.1 ∧ namedGroup Spec.nvraGroups caps "arch" = some q.2.2.2.2
+    ∧ namedGroup Spec.nvraGroups caps "epoch" = q.2.1 := by
+  obtain ⟨n, ep, v, rl, a⟩ := q
+  cases ep <;> cases d <;>
+    simp [namedGroup, Spec.nvraGroups, List.lookup, Caps.get, PM.NvraExact.capsOf, PM.NvraExact.epc, PM.NvraExact.dcap]
+
+/-- **Exact behaviour of `parse_nvra` on EVERY string** (any length, any content: odd names, several slashes, colons,
+line feeds, Unicode digits; no domain hypothesis): the regex-driven `parseNvra` equals the directly written
+`Spec.parseNvraDirect` —
+strip one trailing `.rpm`; look only at the first line, and require that nothing or a single final line feed follows it;
+drop the directory through the LAST `/` after which the rest still parses (otherwise no directory is dropped at all);
+name = up to the last `-` after which `[epoch:]version-release.arch` can still be found; epoch = the whole leading digit
+run if a `:` follows it and the rest still splits (otherwise digits and colon stay in the version); version = up to the
+last `-` that still has a `.` to its right; release = up to the last `.`; arch = the rest; `int()` of the epoch. -/
+theorem C13_parser_exact (s : Str) : parseNvra s = Spec.parseNvraDirect s := by
+  unfold parseNvra Spec.parseNvraDirect
+  simp only
+  rw [C13_pattern.1]
+  cases h : Spec.p1 (isEol ((stripRpm s).dropWhile Cls.any.mem)) ((stripRpm s).takeWhile Cls.any.mem) with
+  | none => rw [PM.NvraExact.nvra_exact_none _ h]
+  | some q =>
+    obtain ⟨d, hd⟩ := PM.NvraExact.nvra_exact_some _ q h
+    rw [hd]
+    simp only [nvraOfCaps, C13_pattern.2]
+    obtain ⟨h1, h2, h3, h4, h5⟩ := groups_exact q d
+    simp only [h1, h2, h3, h4, h5]
+    obtain ⟨n, ep, v, rl, a⟩ := q
+    cases ep with
+    | none => rfl
+    | some D =>
+      have hne := PM.NvraExact.p1_epoch_ne h
+      cases D with
+      | nil => exact absurd rfl hne
+      | cons d0 ds => rfl
+
+/-- Corollary: a string in which anything but one final line feed follows the first line is refused, whatever it
+contains (`.` does not match a line feed, `$` only matches at the end or before a final line feed). -/
+theorem C13_multiline_refused (s : Str) (h : isEol ((stripRpm s).dropWhile Cls.any.mem) = false) :
+    parseNvra s = .error .valueError := by
+  rw [C13_parser_exact]
+  unfold Spec.parseNvraDirect
+  simp only [h, PM.NvraExact.p1_false]
+
 /-! ### the property's own alphabets and the library's architecture table -/
 /-- letters, digits, `.`, `_`, `+` and the segment separator `-` -/
 def nameChar (c : Char) : Bool := c.isAlphanum || c == '.' || c == '_' || c == '+' || c == '-'
@@ -196,5 +243,12 @@ example : (parseNvra "Packages/g/glibc-common-2-12:2.17-78.el7.x86_64.rpm".toLis
              release := some "78.el7".toList, arch := some "x86_64".toList } := by decide +kernel
 example : (match parseNvra "a-1-1".toList with | .error .valueError => true | _ => false) = true := by decide +kernel
 example : "x86_64".toList ∈ Gen.RPM_ARCHES := by decide
+-- outside the property's domain: a slash after the last admissible split stays in the architecture; a digit run
+-- followed by a colon is only an epoch when the rest still splits
+example : (Spec.parseNvraDirect "a-1-1.x/b".toList).toOption
+    = some { name := some "a".toList, epoch := 0, version := some "1".toList, release := some "1".toList,
+             arch := some "x/b".toList } := by decide +kernel
+example : (Spec.parseNvraDirect "n-7:v.w".toList).toOption = none := by decide +kernel
+example : isEol ("a-1-1.x\n\n".toList.dropWhile Cls.any.mem) = false := by decide
 
 end PM
